@@ -91,9 +91,10 @@ def impl_iter_lines(variant, chunks):
 def canon_msg(m):
     raw = getattr(m, 'raw', None)
     payload = getattr(m, 'payload', None)
+    w = getattr(m, 'wrapper_msg', None)
     return (type(m).__name__, bytes(raw).hex() if raw is not None else None,
             bytes(payload).hex() if isinstance(payload, (bytes, bytearray)) else repr(payload),
-            bool(getattr(m, 'is_valid', None)))
+            bool(getattr(m, 'is_valid', None)), None if w is None else bytes(w.raw).hex())      # + the attached wrapper line
 
 
 def raw_of(m):
@@ -115,7 +116,7 @@ def impl_messages(variant, chunks):
             if len(out) > 100000:
                 raise RuntimeError('iteration does not terminate')
     except Exception as e:  # noqa: BLE001
-        out.append(('EXCEPTION', type(e).__name__, '', False))
+        out.append(('EXCEPTION', type(e).__name__, '', False, None))
     return out
 
 
@@ -200,6 +201,11 @@ def ais_stream(rng, n_msgs):
                 tb = b's:st%d,c:%d' % (rng.randrange(100), 1241544035 + rng.randrange(1000))
                 sents = [b'\\' + tb + b'*' + format(ais.xor_checksum(tb), '02X').encode() + b'\\' + x for x in sents]
             n_ais += 1
+            if rng.random() < 0.15:      # a Gatehouse wrapper line in front of the message (attached to it on delivery)
+                wb = b'PGHP,1,%d,%d,%d,%d,%d,%d,%d,219,,2190047,1,%02X' % (rng.randrange(2000, 2030), rng.randrange(1, 13),
+                                                                          rng.randrange(1, 29), rng.randrange(24), rng.randrange(60),
+                                                                          rng.randrange(60), rng.randrange(1000), rng.randrange(256))
+                sents = [b'$' + wb + b'*' + format(ais.xor_checksum(wb), '02X').encode()] + sents
         term_mode = rng.random()
         for s in sents:
             t = b'\n' if term_mode < 0.3 else b'\r\n' if term_mode < 0.8 else rng.choice([b'\n', b'\r\n'])
@@ -516,6 +522,28 @@ def ais_cases(ctx, n_streams):
     return cases
 
 
+def buffer_size_cases(ctx):
+    """Long streams cut into chunks of exactly the receive buffer size (recv(BUF_SIZE) / recvfrom(BUF_SIZE) return at most that
+    many bytes, and a busy peer fills them), one byte less and -- for the scripted socket -- one byte more: a full chunk ends
+    inside a line almost always."""
+    import pyais.stream as st
+    rng = ctx.rng
+    size = int(getattr(st, 'BUF_SIZE', 4096))
+    cases = []
+    for _ in range(ctx.budget(2, 12)):
+        lines = []
+        while sum(len(x) for x in lines) < 3 * size + 500:
+            more, _n = ais_stream(rng, 8)
+            lines += more
+        s = b''.join(lines)
+        for step in (size, size - 1, size + 1):
+            cuts = list(range(step, len(s), step))
+            cases.append(('chunk-of-buffer-size', lines, cut(s, cuts)))
+        first = rng.randrange(1, size)
+        cases.append(('chunk-of-buffer-size', lines, cut(s, [first] + list(range(first + size, len(s), size)))))
+    return cases
+
+
 def enumerated_short(ctx, max_len, count, min_len=3):
     cases = []
     for ls in short_streams(ctx.rng, max_len, count, min_len):
@@ -567,6 +595,7 @@ def run(ctx):
     check_cases(ctx, filter_boundary_cases(ctx), with_messages=True, samples=False)
     # AIS streams x directed segmentations, messages observed
     run_in_slices(ctx, ais_cases(ctx, ctx.budget(60, 1500)), with_messages=True)
+    check_cases(ctx, buffer_size_cases(ctx), with_messages=True, samples=False)
     # all 1- and 2-cut segmentations of an AIS stream, messages observed
     if ctx.quick:
         cases = one_two_cut_cases(ctx, 2)
